@@ -1,0 +1,52 @@
+//go:build verif
+
+package nl
+
+// Contracts for the goblvc verifier (see /verif/DESIGN.md). Comments only.
+//
+// C13 (Netherlands, btw-id): nine digits, "B", two digits. Either the ninth digit is the
+// "elfproef" check of the first eight (weights 9..2, a remainder above 9 reads 0), or the
+// whole number prefixed with NL passes the ISO 7064 MOD 97-10 test (rule of 2020).
+//@ pred nlFormat(c string) bool = len(c) == 12 && digitsIn(c, 0, 9) && s_byte(c, 9) == 66 && digitsIn(c, 10, 12)
+//
+// shr10(n, i) is n without its last i decimal digits; m11acc the weighted sum of digits 2..i+1
+// counted from the right with weights 2..i+1.
+//@ rec shr10(n int, i int) int = ite(i <= 0, n, shr10(n, i - 1) / 10)
+//@ rec m11acc(n int, i int) int = ite(i <= 0, 0, m11acc(n, i - 1) + (shr10(n, i) % 10) * (i + 1))
+//@ func mod11(num) (r)
+//@   requires num >= 0
+//@   ensures [elfproef] r == ite(m11acc(num, 8) % 11 > 9, 0, m11acc(num, 8) % 11)
+//@   loop 1 invariant 0 <= i && i <= 8 && num >= 0 && num == shr10(old(num), i) && sum == m11acc(old(num), i) && sum >= 0 && sum <= 81 * i
+//
+//@ func isDigits(code) (r)
+//@   ensures [digits] r <==> len(code) > 0 && digitsIn(code, 0, len(code))
+//@   loop 1 invariant 0 <= i && i <= len(code) && digitsIn(code, 0, i)
+//
+// The MOD 97-10 test on "NL" + nine digits + "B" + two digits: letters read as 10..35
+// (A = 10), the decimal number so formed must leave remainder 1.
+//@ pred nl97Shape(c string) bool = len(c) == 14 && s_byte(c, 0) == 78 && s_byte(c, 1) == 76 && digitsIn(c, 2, 11) && s_byte(c, 11) == 66 && digitsIn(c, 12, 14)
+//@ rec nl97(c string, k int) int = ite(k <= 0, 0, ite(s_byte(c, k - 1) >= 48 && s_byte(c, k - 1) <= 57, nl97(c, k - 1) * 10 + (s_byte(c, k - 1) - 48), nl97(c, k - 1) * 100 + (s_byte(c, k - 1) - 55)))
+//@ spec nl97Bound(k int) int = ite(k <= 0, 1, ite(k == 1, 100, ite(k == 2, 10000, ite(k == 3, 100000, ite(k == 4, 1000000, ite(k == 5, 10000000, ite(k == 6, 100000000, ite(k == 7, 1000000000, ite(k == 8, 10000000000, ite(k == 9, 100000000000, ite(k == 10, 1000000000000, ite(k == 11, 10000000000000, ite(k == 12, 1000000000000000, ite(k == 13, 10000000000000000, 100000000000000000))))))))))))))
+//@ func checkMod97(code) (r)
+//@   requires nl97Shape(code)
+//@   ensures [mod97] r <==> nl97(code, 14) % 97 == 1
+//@   loop 1 invariant len(set) == 14 && (forall j int :: 0 <= j && j < $pos ==> set[j] == ite(s_byte(code, j) >= 48 && s_byte(code, j) <= 57, s_byte(code, j) - 48, s_byte(code, j) - 55))
+//@   loop 2 invariant len(set) == 14 && (forall j int :: 0 <= j && j < 14 ==> set[j] == ite(s_byte(code, j) >= 48 && s_byte(code, j) <= 57, s_byte(code, j) - 48, s_byte(code, j) - 55)) && r == nl97(code, idx) && r >= 0 && r < nl97Bound(idx)
+//
+// "NL" reads 2321 and "B" reads 11: the number tested is 2321 n(9 digits) 11 c(2 digits).
+//@ spec nlNum97(n int, c int) int = 23210000000000000 + n * 10000 + 1100 + c
+//@ global errInvalidVAT != nil
+//@ spec mod11S(n int) int = ite(m11acc(n, 8) % 11 > 9, 0, m11acc(n, 8) % 11)
+//@ func validateDigits(code, check) (err)
+//@   requires len(code) == 9 && len(check) == 2
+//@   ensures [format] err == nil ==> digitsIn(code, 0, 9) && digitsIn(check, 0, 2)
+//@   ensures [elfproef] digitsIn(code, 0, 9) && digitsIn(check, 0, 2) && mod11S(dval(code, 9)) == dval(code, 9) % 10 ==> err == nil
+//@   ensures [iff] err == nil <==> digitsIn(code, 0, 9) && digitsIn(check, 0, 2) && (mod11S(dval(code, 9)) == dval(code, 9) % 10 || nlNum97(dval(code, 9), dval(check, 2)) % 97 == 1)
+//
+// The whole rule.
+//@ func validateTaxCode(value) (err)
+//@   let code = unboxed(value, cbc.Code)
+//@   ensures [format] typeis(value, cbc.Code) && code != "" && err == nil ==> nlFormat(code)
+//@   ensures [elfproef] typeis(value, cbc.Code) && nlFormat(code) && mod11S(dval(s_substr(code, 0, 9), 9)) == s_byte(code, 8) - 48 ==> err == nil
+//@   ensures [iff] typeis(value, cbc.Code) && code != "" ==> (err == nil <==> nlFormat(code) && (mod11S(dval(s_substr(code, 0, 9), 9)) == s_byte(code, 8) - 48 || nlNum97(dval(s_substr(code, 0, 9), 9), dval(s_substr(code, 10, 12), 2)) % 97 == 1))
+//@   ensures [skip] !typeis(value, cbc.Code) || code == "" ==> err == nil
